@@ -961,6 +961,23 @@ class Duel:
             bad.append("script stopped during application data: %s %s" % (s.kind, s.detail))
         return bad
 
+    def stray_then_data(self, rtype, payload, more, wait=20.0):
+        """the script sends one protected record that is not application data, then application data `more`; the library reads three
+        times.  -> list of (verdict, returned bytes) per read; whatever the reads deliver must be a prefix of `more`."""
+        reads = []
+        try:
+            self.peer.w.send(rtype, payload)
+            self.peer.send_app(more)
+            self.b.shutdown(socket.SHUT_WR)          # nothing follows: further reads end at EOF instead of blocking
+            for _ in range(3):
+                r = self.ep.do("recv", len(more) + len(payload) + 64, timeout=wait)
+                reads.append((r[0], r[1] if len(r) > 1 else None, r[2] if len(r) > 2 else b""))
+                if r[0] != "recv":
+                    break
+        except Stop as s:
+            reads.append(("stop", s.kind, b""))
+        return reads
+
     def _shut(self):
         for s in (self.b, self.a):
             try:
@@ -979,7 +996,7 @@ class Duel:
                 pass
 
 
-def run(variant, proto, lib_role, behaviour, inst=0, n_inter=1, keysel="attacker", encsel="sibling", p=0, seed=0, app=None, idle=5.0):
+def run(variant, proto, lib_role, behaviour, inst=0, n_inter=1, keysel="attacker", encsel="sibling", p=0, seed=0, app=None, idle=5.0, stray=None):
     """one session.  -> dict(setup, lib (tls_do_handshake result / None), script report, app problems, stalled)"""
     from .ffi import shim
     shim().freeze_time(pki.T0)
@@ -999,6 +1016,8 @@ def run(variant, proto, lib_role, behaviour, inst=0, n_inter=1, keysel="attacker
         out["stalled"] = d.stalled
         if app is not None and out["lib"] == 1 and out["script"]["completed"]:
             out["app"] = d.app_data(app[0], app[1])
+            if stray is not None and out["app"] == []:
+                out["stray"] = d.stray_then_data(*stray)
     finally:
         d.finish()
     return out
